@@ -4,7 +4,7 @@ CONSTANTS
   Srcs = {"ready_val", "ready_err", "ready_exc", "before_val", "after_val", "after_err", "after_exc", "on_after_val", "run_val", "run_throw", "acontract_val", "task_val", "sched_val", "lcontract_val", "sready_val", "sready_err", "sready_exc", "safter_val", "safter_exc"}
   Atts = {"inline", "e1"}
   Args = {"V", "E", "X", "R"}
-  Behs = {"val", "throw", "throw_re", "res_val", "res_err", "res_exc", "fut_ready", "fut_pending", "fut_err", "shared_ready", "shared_pending", "task_make", "task_sched_stopped", "task_sched", "task_contract", "task_sched_then", "shared_cached_exc"}
+  Behs = {"val", "void_hop", "void_throw", "throw", "throw_re", "res_val", "res_err", "res_exc", "fut_ready", "fut_pending", "fut_err", "shared_ready", "shared_pending", "task_make", "task_sched_stopped", "task_sched", "task_contract", "task_sched_then", "shared_cached_exc"}
   Rejects = {9}
   Starts = {"to_future"}
 INVARIANTS CalledXorDropped DropOnlyWhenStopped RanWhereTold InvokedInOrder LazyEqualsEager CancelRunsNoValueCallback AllocBound Emit
